@@ -48,6 +48,12 @@ def impl_step(env, op):
     elif k == "float":
         for j in getattr(env[op[1]], "jordans", ()):
             float(j)
+    elif k == "poly":
+        # moment queries (no counterpart in the heap model: they change nothing there)
+        x = env[op[1]]
+        if hasattr(x, "jordans"):
+            for a, b in ((0, 0), (1, 0), (0, 1), (1, 1), (2, 0)):
+                I.IntegrateShape.polynomial(x, a, b)
     else:
         raise ValueError(k)
 
@@ -160,18 +166,22 @@ class MState:
         return out
 
 
+def model_ops(history):
+    return [e_op(op) for op in history if op[0] != "poly"]
+
+
 def model_run(model, history):
     """('ok', MState) | ('err', kind) | ('nofuel',)"""
-    r = model.raw([50, [e_op(op) for op in history]])
+    r = model.raw([50, model_ops(history)])
     return W.d_res(MState, r)
 
 
 def model_contains(model, history, v, p, b):
-    return W.d_res(W.d_bool, model.raw([51, [e_op(op) for op in history], v, W.e_point(p), bool(b)]))
+    return W.d_res(W.d_bool, model.raw([51, model_ops(history), v, W.e_point(p), bool(b)]))
 
 
 def model_floats(model, history, v):
-    return W.d_res(lambda x: [(bool(c[0]), W.d_jordan(c[1])) for c in x], model.raw([52, [e_op(op) for op in history], v]))
+    return W.d_res(lambda x: [(bool(c[0]), W.d_jordan(c[1])) for c in x], model.raw([52, model_ops(history), v]))
 
 
 # ---------------- comparison ----------------
